@@ -293,6 +293,41 @@ def _filter_cases(draw, tier):
                 noise_rel=draw(_noise()))
 
 
+@st.composite
+def _history_cases(draw, tier):
+    """operation history on ONE scheme object: channel and noise-variance
+    setters interleaved with encode/decode, compared after every step with a
+    freshly built object (no stale derived filters)."""
+    thorough = tier == "thorough"
+    nmax = 6 if thorough else 4
+    scheme = draw(st.sampled_from(_SCHEME_POOL))
+    if scheme in _MATRIX_SCHEMES:
+        Nt = draw(st.integers(1, nmax))
+        Nr = Nt + draw(st.integers(0, 2))
+        layers = Nt
+    elif scheme == "MRC":
+        Nt, Nr, layers = 1, draw(st.integers(1, nmax)), 1
+    elif scheme == "MRT":
+        Nr, Nt, layers = 1, draw(st.integers(1, nmax)), 1
+    else:
+        Nt, Nr, layers = 2, draw(st.integers(1, 4)), 2
+    ops = []
+    nops = draw(st.integers(2, 7))
+    for _ in range(nops):
+        kind = draw(st.sampled_from(["noise", "noise", "chan", "use", "use"]))
+        if kind == "noise" and scheme in _NOISE_SCHEMES:
+            ops.append(dict(op="noise", value=draw(st.one_of(
+                st.just("none"), st.just("zero"), _noise()))))
+        elif kind == "chan":
+            ops.append(dict(op="chan", chan=draw(cond_matrix(Nr, Nt, 2.0))))
+        else:
+            ops.append(dict(op="use"))
+    ops.append(dict(op="use"))
+    return dict(part="history", scheme=scheme,
+                chan=draw(cond_matrix(Nr, Nt, 2.0)),
+                data=draw(_data(layers * draw(st.integers(1, 3)))), ops=ops)
+
+
 def _enum_shapes(tier):
     """every scheme x every shape of the quick domain, one fixed generic
     channel each (so no shape depends on the luck of the draw)"""
@@ -337,6 +372,8 @@ PARTS = [
          quick_shards=6, thorough_shards=24),
     Part("filters", _filter_cases, quick=2500, thorough=60000,
          quick_shards=2, thorough_shards=8),
+    Part("history", _history_cases, quick=1500, thorough=40000,
+         quick_shards=4, thorough_shards=8),
 ]
 
 
@@ -633,7 +670,78 @@ def _check_filters(case, ctx):
                   "filter (s2=%.3e)" % (name.upper(), s2), tags)
 
 
+def _check_history(case, ctx):
+    """after any sequence of set_channel_matrix / set_noise_var calls the
+    object decodes exactly like a fresh object with the current settings,
+    and recovers the data whenever no noise variance is set (ZF)."""
+    from pyphysim.mimo import mimo
+    scheme = case["scheme"]
+    cls = getattr(mimo, scheme)
+    x = _data_array(case["data"])
+    xmax = float(np.max(np.abs(x)))
+    H, _, s, _ = build_cond_matrix(case["chan"])
+    kappa = float(s.max() / s.min())
+    tags = dict(scheme=scheme, part="history")
+    ctx.label("hist:" + scheme)
+    noise = None                   # current noise variance (model)
+    noise_set_then_cleared = False
+    had_noise = False
+    n_use = 0
+    with _tagged(tags):
+        obj = cls(H.copy())
+        for i, op in enumerate(case["ops"]):
+            if op["op"] == "chan":
+                H, _, s, _ = build_cond_matrix(op["chan"])
+                kappa = float(s.max() / s.min())
+                obj.set_channel_matrix(H.copy())
+                ctx.label("hist_op:chan")
+            elif op["op"] == "noise":
+                v = op["value"]
+                if v == "none":
+                    noise = None
+                elif v == "zero":
+                    noise = 0.0
+                else:
+                    noise = _noise_var(v, s)
+                    had_noise = True
+                if had_noise and not noise:
+                    noise_set_then_cleared = True
+                obj.set_noise_var(noise)
+                ctx.label("hist_op:noise")
+            else:
+                n_use += 1
+                fresh = cls(H.copy())
+                if scheme in _NOISE_SCHEMES:
+                    fresh.set_noise_var(noise)
+                e1 = np.asarray(obj.encode(x.copy()))
+                e2 = np.asarray(fresh.encode(x.copy()))
+                y = H.dot(e1)
+                d1 = np.asarray(obj.decode(y.copy()))
+                d2 = np.asarray(fresh.decode(H.dot(e2)))
+                tol = 1e-10 * kappa * max(xmax, 1e-300)
+                ctx.close("history_encode_vs_fresh",
+                          float(np.max(np.abs(e1 - e2))), tol,
+                          "step %d: encode differs from a fresh object" % i,
+                          tags)
+                ctx.close("history_decode_vs_fresh",
+                          float(np.max(np.abs(d1 - d2))), tol,
+                          "step %d: decode differs from a fresh object with "
+                          "the same channel and noise_var=%r (stale receive "
+                          "filter?)" % (i, noise), tags)
+                if not noise:
+                    ctx.close("history_roundtrip",
+                              float(np.max(np.abs(d1.reshape(-1) - x))),
+                              _RT_TOL * 10 * kappa * max(xmax, 1e-300),
+                              "step %d: data not recovered with noise_var=%r"
+                              % (i, noise), tags)
+    if noise_set_then_cleared:
+        ctx.label("hist:noise_set_then_cleared")
+    ctx.nontrivial(n_use >= 2 and len(case["ops"]) >= 3)
+
+
 def check(case, ctx):
+    if case["part"] == "history":
+        return _check_history(case, ctx)
     if case["part"] in ("roundtrip", "shapes"):
         return _check_roundtrip(case, ctx)
     if case["part"] == "filters":
